@@ -52,11 +52,40 @@ pub struct SJob {
 
 const ALNUM: &[u8; 45] = b"0123456789ABCDEFGHIJKLMNOPQRSTUVWXYZ $%*+-./:";
 
-/// kind: "small" = versions 1..=4 (Miri-sized), "mixed" = versions up to 12 with PNG,
+/// kind: "large" = one forced big version per job (5..=40), "small" = versions 1..=4 (Miri-sized), "mixed" = versions up to 12 with PNG,
 /// "render" = PNG-heavy. The list depends only on (kind, seed, n).
 pub fn workload(kind: &str, seed: u64, n: usize) -> Vec<SJob> {
     let mut rng = Rng(seed ^ 0x5a17);
     let mut out = Vec::with_capacity(n);
+    if kind == "large" {
+        // one build per job at a forced large version (every fixed-size work buffer is walked to its
+        // far end: 177x177 matrix, 3706 codewords, 81 blocks): sized so that one job = one Miri process
+        const BIG: [usize; 16] = [40, 36, 32, 27, 24, 21, 18, 16, 14, 12, 10, 9, 8, 7, 6, 5];
+        for id in 0..n {
+            let v = BIG[id % 16];
+            let class = rng.below(3);
+            let len = rng.below(6 * v + 1);
+            let input: Vec<u8> = (0..len)
+                .map(|_| match class {
+                    0 => b'0' + rng.below(10) as u8,
+                    1 => ALNUM[rng.below(45)],
+                    _ => rng.next() as u8,
+                })
+                .collect();
+            out.push(SJob {
+                id,
+                input,
+                mode: if rng.below(2) == 0 { Some(class.max(rng.below(3))) } else { None },
+                level: Some(rng.below(4)),
+                version: Some(v),
+                mask: if id % 4 == 3 { Some(rng.below(8)) } else { None },
+                render: if v <= 12 { 3 } else { (id % 2) as u8 },
+                shape: rng.below(6),
+                margin: rng.below(6),
+            });
+        }
+        return out;
+    }
     for id in 0..n {
         let class = rng.below(3);
         let (max_len, vmax) = match kind {
